@@ -633,10 +633,23 @@ func (p *PolicyManager) createIPSet(newIPSetMap map[string]*ipsetTable) error {
 			continue
 		}
 		oldEntriesSet := sets.NewString(oldEntries...)
-		newEntries := sets.NewString()
+		// an ipset element is identified by its address, options like nomatch are flags of that element. If an
+		// address is wanted both with and without nomatch (excepted by one peer, allowed by another), it is allowed
+		plainEntries := sets.NewString()
 		for _, entry := range set.entries {
+			if len(entry.Options) == 0 {
+				plainEntries.Insert(entry.String())
+			}
+		}
+		newEntries := sets.NewString()
+		newElements := sets.NewString()
+		for _, entry := range set.entries {
+			if len(entry.Options) > 0 && plainEntries.Has(entry.String()) {
+				continue
+			}
 			newEntryStr := strings.Join(append([]string{entry.String()}, entry.Options...), " ")
 			newEntries.Insert(newEntryStr)
+			newElements.Insert(entry.String())
 			if oldEntriesSet.Has(newEntryStr) {
 				continue
 			}
@@ -650,6 +663,10 @@ func (p *PolicyManager) createIPSet(newIPSetMap map[string]*ipsetTable) error {
 		for _, old := range oldEntries {
 			if !newEntries.Has(old) {
 				parts := strings.Split(old, " ")
+				if newElements.Has(parts[0]) {
+					// the element has just been added again with other options, deleting it would remove it
+					continue
+				}
 				if err := p.ipsetHandle.DelEntryWithOptions(name, parts[0], parts[1:]...); err != nil {
 					glog.Warningf("failed to del entry %s from set %s: %v", old, name, err)
 				}
